@@ -38,7 +38,8 @@ func init() {
 			"R3 the JWT validator answers true only with no parse error ∧ alg == HS256 ∧ token.Valid, verifies with the key it signs with, requires the Bearer scheme, " +
 			"reads the user id from the claim the issuer writes, the issuer signs HS256 with a future expiry, no constant-true validator is instantiated; " +
 			"R4 the store's auth handler issues a token only after the credential check returned no error and ≥1 node and then publishes a payload to the reply subject; " +
-			"R5 a user is kept iff e-mail and password both match, only users with a live path are returned, the live-path search skips a tombstoned edge without ending the search, " +
+			"R5 a user is kept iff e-mail and password both compare equal (in Go, or by `=` against the text of the point of that type in the query that selects the candidates; " +
+			"a LIKE/GLOB/REGEXP/range operator, a parameter pasted into the statement text or a prefix/substring/pattern predicate is not such a comparison), only users with a live path are returned, the live-path search skips a tombstoned edge without ending the search, " +
 			"answers true only at the root sentinel (or through the recursion) and walks down→up; " +
 			"R6 NATS server Authorization, websocket token, the instance's own client token and the HTTP gate's token are all fed from the same configuration field; " +
 			"R7 the user's node listing never asks for deleted nodes, starts at the parents of the user's instances and descends children only. " +
@@ -49,6 +50,7 @@ func init() {
 			"net/http: a handler that returns after http.Error(…, 401) has no further effect",
 			"bus reachability is computed over static calls and interface implementations inside package api (quick tier); func-valued fields are treated as bus operations",
 			"non-atom conditions are treated as nondeterministic (both edges explored)",
+			"SQLite: `=` on a TEXT column with the default collation is bytewise equality; x LIKE x holds for every text x when no ESCAPE is given; a user node carries one e-mail and one pass point",
 			"same-package helpers, predicates, closures and methods are interpreted inline (depth ≤ 4, no recursion); a fact that is missing on a path through module code that was not interpreted, or after a test that was not understood, ends undecided, never as a violation",
 		},
 		Run: runC09,
